@@ -53,6 +53,15 @@ def replay_case(arg):
     perm = np.array(perms[int(key, 16) % len(perms)])
     times = np.round(0.4 + 0.7 * np.arange(nt), 2)[perm]
     data = np.round(rng.uniform(1.0, 6.0, size=(3, nobs, nt)), 3)
+    # ragged measurements: some individuals are not measured in some (observable, time) cells (NaN padding)
+    if (int(key, 16) // 3) % 2 == 0:
+        for _ in range(1 + int(rng.integers(2))):
+            i_, r_, j_ = int(rng.integers(3)), int(rng.integers(nobs)), int(rng.integers(nt))
+            if np.sum(~np.isnan(data[:, r_, j_])) > 1:
+                data[i_, r_, j_] = np.nan
+        if np.isnan(data).any():
+            feats.append('missing_measurements')
+            cnt['feat_missing_measurements'] = 1
     order = np.argsort(times)
     if list(perm) != sorted(perm):
         feats.append('unsorted_times')
@@ -89,6 +98,46 @@ def replay_case(arg):
     except Exception as e:
         fail('Construct', type(e).__name__, repr(e))
         return fails, cnt
+    # ---- inference I/O (C18): a coded raw chain formatted by the sampling controller -- the entry of position k is found under
+    # the name and the individual the specification gives to position k (FilterPosterior!Names / Ids), every entry once
+    try:
+        with warnings.catch_warnings():
+            warnings.simplefilter('ignore')
+            # (the controller draws initial points when it is built: a twin posterior whose prior has its mass inside the
+            # support of every scale parameter)
+            from .replay_inferenceio import make_prior
+            post_io = chi.PopulationFilterLogPosterior(
+                filt, times.copy(), mech, pop, make_prior(rec['names'][:rec['ntop']]), sigma=sig_fixed,
+                error_on_log_scale=log_scale, n_samples=ns, covariates=(covs if rec['ncov'] > 0 else None))
+            sctrl = chi.SamplingController(post_io, seed=3)
+            nall = rec['nparams']
+            raw = np.zeros((2, 3, nall))
+            for c_ in range(2):
+                for d_ in range(3):
+                    raw[c_, d_, :] = 10000 * (c_ + 1) + 1000 * (d_ + 1) + np.arange(1, nall + 1)
+            ds = sctrl._format_chains(raw.copy(), None)
+        cnt['chains_formatted'] = 1
+        total = sum(int(ds[v_].size) for v_ in ds.data_vars)
+        if total != raw.size:
+            fail('IO_ExactlyOnce', 'number_of_entries', dict(got=total, expected=int(raw.size)))
+        for k_, (nm_, id_) in enumerate(zip(rec['names'], rec['ids'])):
+            if nm_ not in ds.data_vars:
+                fail('IO_ExactlyOnce', 'missing_variable', dict(name=nm_, variables=list(ds.data_vars)[:8]))
+                break
+            arr = ds[nm_]
+            if id_ != 'None':
+                if 'individual' not in arr.dims or id_ not in [str(x_) for x_ in arr.individual.values]:
+                    fail('IO_ExactlyOnce', 'individual_coordinates', dict(name=nm_, id=id_))
+                    break
+                got_ = arr.sel(individual=id_).transpose('chain', 'draw').values
+            else:
+                got_ = arr.transpose('chain', 'draw').values
+            if got_.shape != (2, 3) or not np.array_equal(got_, raw[:, :, k_]):
+                fail('IO_ExactlyOnce', 'cells', dict(position=k_ + 1, name=nm_, id=id_,
+                                                     holds_position=(int(np.ravel(got_)[0]) % 1000 if np.size(got_) else None)))
+                break
+    except Exception as e:
+        fail('IO_ExactlyOnce', type(e).__name__, repr(e))
     # ---- names, IDs, counts ---------------------------------------------------------------
     try:
         scribble(post)
@@ -181,6 +230,27 @@ def replay_case(arg):
                 fail('GradSlotOK', 'gradient', dict(positions=bad[:6], got=g.tolist(), expected=exp_g.tolist()))
         if not np.array_equal(x_in, x):
             fail('NoInputWrite', 'parameters_modified', None)
+    # ---- representation: a whole-number point handed over as an INTEGER array (or a list of ints) scores like the same point
+    # as floats, value and gradient
+    if not fails:
+        xi = np.array([(1 + (k_ % 2)) if rec['layout'][k_][0] not in ('beta', 'eps') else (k_ % 2) for k_ in range(rec['nparams'])],
+                      dtype=int)
+        try:
+            with warnings.catch_warnings():
+                warnings.simplefilter('ignore')
+                vf, vi, vl = float(post(xi.astype(float))), float(post(xi.copy())), float(post([int(q) for q in xi]))
+                sf, gf = post.evaluateS1(xi.astype(float))
+                si, gi = post.evaluateS1(xi.copy())
+            cnt['evaluations'] = cnt.get('evaluations', 0) + 5
+            cnt['integer_vector_twins'] = 1
+            fin = np.isfinite(vf)
+            if not (np.isfinite(vi) == fin and np.isfinite(vl) == fin and (not fin or (interp.close(vf, vi) and interp.close(vf, vl)
+                                                                                        and interp.close(float(sf), float(si))))):
+                fail('Denotation', 'integer_vector_scores_differently', dict(float=vf, int=vi, list=vl, x=xi.tolist()))
+            elif fin and not interp.close(np.asarray(gf, dtype=float), np.asarray(gi, dtype=float), rtol=1e-9, atol=1e-9):
+                fail('GradSlotOK', 'integer_vector_gradient', dict(x=xi.tolist()))
+        except Exception as e:
+            fail('Evaluable', type(e).__name__, dict(op='integer vector', error=repr(e)))
     # ---- the user's filter object is not consumed: a second posterior built from the SAME filter object (and the same
     # unsorted times) scores like the first, and the first is unaffected by the construction of the second
     if not fails:
